@@ -707,6 +707,7 @@ func (e *exporter) variant(k *Key, v *Variant) map[string]any {
 		key := k.Key.(model.PolicyKey)
 		out["id"] = key.Kind + "/" + key.Namespace + "/" + key.Name
 		out["name"] = key.Name
+		e.strs[key.Name] = true
 		out["namespace"] = key.Namespace
 		out["pkind"] = key.Kind
 		out["tier"] = val.Tier
@@ -738,14 +739,21 @@ func (e *exporter) variant(k *Key, v *Variant) map[string]any {
 		out["outr"] = e.rules(val.OutboundRules)
 	case *model.Tier:
 		out["name"] = k.Key.(model.TierKey).Name
+		e.strs[k.Key.(model.TierKey).Name] = true
 		has, o := intOrder(val.Order)
 		out["hasOrder"] = has
 		out["order"] = o
 		out["defaultAction"] = string(val.DefaultAction)
 	case *model.IPPool:
 		out["cidr"] = octets(val.CIDR)
-		out["ipip"] = string(val.IPIPMode)
-		out["vxlan"] = string(val.VXLANMode)
+		mode := func(m encap.Mode) string {
+			if m == encap.Never {
+				return "never"
+			}
+			return string(m)
+		}
+		out["ipip"] = mode(val.IPIPMode)
+		out["vxlan"] = mode(val.VXLANMode)
 		out["nat"] = val.Masquerade
 		out["lbonly"] = len(val.AllowedUses) == 1 && val.AllowedUses[0] == v3.IPPoolAllowedUseLoadBalancer
 	case *model.AllocationBlock:
@@ -852,6 +860,13 @@ func exportUniverse(u *Universe) map[string]any {
 		keys[k.ID] = map[string]any{"kind": k.Kind, "variants": vs, "vnames": names}
 		order = append(order, k.ID)
 	}
+	// names that the ordering rules compare: characters and their code points
+	ords := map[string]int{}
+	for s := range e.strs {
+		for _, r := range s {
+			ords[string(r)] = int(r)
+		}
+	}
 	ips := map[string]any{}
 	for id, d := range e.ipsets {
 		ips[id] = d
@@ -864,6 +879,7 @@ func exportUniverse(u *Universe) map[string]any {
 		"order":  order,
 		"ipsets": ips,
 		"ct":     selgen.CharTable(e.strs),
+		"ord":    ords,
 	}
 }
 
